@@ -232,7 +232,7 @@ func (s *Schema) doCompile() error {
 		return s.newDocumentError(errors.ErrRegexUnexpectedStart, 0, content[0])
 	}
 
-	var escaped bool
+	var escaped, closed bool
 
 loop:
 	for i, c := range content[1:] {
@@ -243,6 +243,7 @@ loop:
 		case '/':
 			if !escaped {
 				s.pattern = string(content[1 : i+1])
+				closed = true
 				break loop
 			}
 			escaped = false
@@ -252,7 +253,8 @@ loop:
 		}
 	}
 
-	if s.pattern == "" {
+	// Not by the pattern: `//` is the empty pattern, which is closed.
+	if !closed {
 		idx := uint(len(content) - 1)
 		return s.newDocumentError(errors.ErrRegexUnexpectedEnd, idx, content[idx])
 	}
